@@ -257,7 +257,7 @@ func ZZ_C37_LexNonASCII_LLEN() {
 	zzLexAndCheck(append(zzWithPrefix(prefixes[k], b), suffixes[k]...))
 }
 
-//verif:harness property=C37 mode=bv unwind=40 lens=1..3 thorough_lens=1..4 steps=40000000
+//verif:harness property=C37 mode=bv unwind=40 lens=1..3 thorough_lens=1..3 steps=40000000
 func ZZ_C37_LexInLineComment_LLEN() {
 	zzLexAndCheck(zzWithPrefix("//", zzNondetBytes(LEN)))
 }
